@@ -5,6 +5,7 @@ go 1.25.7
 require (
 	github.com/anishathalye/porcupine v1.3.0
 	github.com/celestiaorg/go-header v0.0.0
+	github.com/celestiaorg/go-libp2p-messenger v0.2.2
 	github.com/ipfs/go-datastore v0.9.0
 	github.com/libp2p/go-libp2p v0.48.0
 	github.com/libp2p/go-libp2p-pubsub v0.16.0
@@ -13,7 +14,6 @@ require (
 require (
 	github.com/benbjohnson/clock v1.3.5 // indirect
 	github.com/beorn7/perks v1.0.1 // indirect
-	github.com/celestiaorg/go-libp2p-messenger v0.2.2 // indirect
 	github.com/cespare/xxhash/v2 v2.3.0 // indirect
 	github.com/davecgh/go-spew v1.1.1 // indirect
 	github.com/decred/dcrd/dcrec/secp256k1/v4 v4.4.0 // indirect
